@@ -11,6 +11,7 @@
      2*b + 1 + limit <= cap : room for two such segments, a newline and one more record;
                              with b = limit this is cap >= 3*limit + 1 (production: cap = 4*limit). *)
 From SV Require Import Model.Common Model.Framing Spec.FramingSpec Proofs.FramingProofs.
+From SV Require Model.GoSem Gen.C08Gen Proofs.C08GenEquiv.
 Open Scope nat_scope.
 
 (* 1. Fragmentation independence.  For EVERY tester, EVERY stream (newline-terminated or not)
@@ -265,3 +266,24 @@ Theorem C08_example_flushes :
              Ok (st, [ex_r1 ++ NL :: ex_c1; ex_r2]).
 Proof. exact example_flush_lemma. Qed.
 Print Assumptions C08_example_flushes.
+
+(* 9. The tie to the SOURCE: Gen/C08Gen.v is regenerated by tools/go2coq from
+   input/syslogprotocol/recordtest.go on every check.  For every byte string the generated Gallina
+   function returns what the hand-written model [test_record_start] returns (panics included), and the
+   fuel it supplies to its loop is never exhausted.  A change of TestRecordStart's behaviour changes the
+   generated term and breaks this proof, whether or not a generated test case hits the change. *)
+Theorem C08_generated_TestRecordStart_agrees :
+  forall s : bytes,
+    GoSem.same_result (test_record_start s) (C08Gen.TestRecordStart s) /\
+    GoSem.is_out_of_fuel (C08Gen.TestRecordStart s) = false.
+Proof. exact (fun s => conj (C08GenEquiv.trs_gen_agrees s) (C08GenEquiv.trs_gen_fuel s)). Qed.
+Print Assumptions C08_generated_TestRecordStart_agrees.
+
+(* ... hence theorem 7 holds of the generated function itself: on every byte string it returns a value
+   (no index panic, fuel suffices), and it says true exactly on the documented header shape. *)
+Theorem C08_generated_TestRecordStart_shape :
+  forall s : bytes,
+    (exists b, C08Gen.TestRecordStart s = GoSem.GOk b) /\
+    (C08Gen.TestRecordStart s = GoSem.GOk true <-> start_shape s).
+Proof. exact (fun s => conj (C08GenEquiv.trs_gen_total s) (C08GenEquiv.trs_gen_shape s)). Qed.
+Print Assumptions C08_generated_TestRecordStart_shape.
